@@ -27,6 +27,9 @@ type witness struct {
 	Expect string   `json:"expect"`
 	Note   string   `json:"note"`
 	Obls   []string `json:"obls"` // optional: only obligations whose name contains one of these
+	// KnownFor: this witness misbehaves on the unchanged tree (it is the witness of recorded known
+	// findings); it replays only these obligations, so that it is never attributed to anything else
+	KnownFor []string `json:"known_for"`
 }
 
 type witnessOutcome struct {
@@ -202,6 +205,17 @@ func (pc *propCheck) replayTranslator(o *Obligation, con *Contract) replayResult
 	anyWitness := strings.HasPrefix(con.FuncName, "(errorReporter)") || strings.HasPrefix(con.FuncName, "(Ctx).printGo")
 	// functions mentioned by the obligation: the contract's function and "in helper" suffixes
 	for _, w := range all {
+		if len(w.KnownFor) > 0 {
+			own := false
+			for _, n := range w.KnownFor {
+				if n == o.Name {
+					own = true
+				}
+			}
+			if !own {
+				continue
+			}
+		}
 		if specific && len(w.Obls) == 0 {
 			continue
 		}
@@ -371,7 +385,7 @@ func (pc *propCheck) replayCoTranslation() replayResult {
 		return files, code, string(b)
 	}
 	alone := map[string]string{}
-	for _, p := range []string{"./kvclient", "./store", "./util"} {
+	for _, p := range []string{"./kvclient", "./store", "./util", "./multi"} {
 		fs, code, log := run("4", p)
 		if code != 0 || len(fs) != 1 {
 			r.Confirmed = true
@@ -380,6 +394,28 @@ func (pc *propCheck) replayCoTranslation() replayResult {
 		}
 		for k, v := range fs {
 			alone[k] = v
+		}
+	}
+	// the same package translated repeatedly: byte-identical output (six pending forward references
+	// give a map iteration 720 possible orders)
+	var first map[string]string
+	for rep := 0; rep < 10; rep++ {
+		fs, code, log := run([]string{"1", "8"}[rep%2], "./multi")
+		if code != 0 || len(fs) != 1 {
+			r.Confirmed = true
+			r.Detail = fmt.Sprintf("goose ./multi: exit %d, %d files\n%s", code, len(fs), firstLine(log))
+			return r
+		}
+		if first == nil {
+			first = fs
+			continue
+		}
+		for k, v := range fs {
+			if first[k] != v {
+				r.Confirmed = true
+				r.Detail = fmt.Sprintf("goose ./multi, run %d: %s differs from the first run of the same command on the same sources\n--- first run (definitions) ---\n%s\n--- this run ---\n%s", rep+1, k, defNames(first[k]), defNames(v))
+				return r
+			}
 		}
 	}
 	for _, procs := range []string{"1", "8"} {
@@ -410,4 +446,17 @@ func headLines(s string, n int) string {
 		ls = ls[:n]
 	}
 	return strings.Join(ls, "\n")
+}
+
+func defNames(coq string) string {
+	var out []string
+	for _, l := range strings.Split(coq, "\n") {
+		if strings.HasPrefix(l, "Definition ") {
+			f := strings.FieldsFunc(l[len("Definition "):], func(r rune) bool { return r == ':' || r == ' ' })
+			if len(f) > 0 {
+				out = append(out, f[0])
+			}
+		}
+	}
+	return strings.Join(out, ", ")
 }
